@@ -1411,16 +1411,17 @@ func runC19(c *ctx) {
 		}
 		// --- correspondence: implementation vs model of the code
 		switch {
+		case impl.panicked && dom:
+			// a value of the documented type / an ordinary option list must never panic
+			res.InDomain++
+			res.Fail("oracle", line, fmt.Sprintf("%s: implementation panicked: %s", describe(), impl.pmsg), "panic:"+panicSite(cs, impl.pmsg))
+			continue
 		case impl.panicked != mPanic:
-			kind := "correspondence"
 			sig := "panic-mismatch"
 			if impl.panicked {
-				sig = "panic:" + panicSite(cs, impl.pmsg)
+				sig = "panic-out-of-domain:" + panicSite(cs, impl.pmsg)
 			}
-			if dom && impl.panicked {
-				kind = "oracle"
-			}
-			res.Fail(kind, line, fmt.Sprintf("%s: implementation panicked=%v (%s), model panic=%v", describe(), impl.panicked, impl.pmsg, mPanic), sig)
+			res.Fail("correspondence", line, fmt.Sprintf("%s: implementation panicked=%v (%s), model panic=%v", describe(), impl.panicked, impl.pmsg, mPanic), sig)
 			continue
 		case impl.panicked:
 			res.Count("outcome:panic(out-of-domain)")
